@@ -56,7 +56,7 @@ Definition routing_of (A : app) (rp : str) (r : Router.rres) : routing :=
   | Router.RCorrupt =>
       (* a route id without Route object: not reachable from router0 by any script (routerC's invariant);
          in the code it would be an exception inside the try of _handle *)
-      ROk [] (mkH [] (HRaiseExc []))
+      RRaise []
   end.
 
 Section Serve.
